@@ -161,7 +161,8 @@ def make_tests(rng, sb, info, ents_by_mode, quick):
         for sg in ("", "+", "-"):
             tests.append(Test(["-links", sg + str(n)], lambda e, m, sp=sg + str(n): cmpn(sp, e.rec.st_nlink), "links"))
     inos = sorted(set(e.lst.st_ino for e in P))
-    for ino in rng.sample(inos, min(len(inos), 10 if quick else 60)):
+    mnt = [e.lst.st_ino for e in P if e.path == "s/mnt"]
+    for ino in rng.sample(inos, min(len(inos), 10 if quick else 60)) + mnt:
         for sg in ("", "+", "-"):
             tests.append(Test(["-inum", sg + str(ino)], lambda e, m, sp=sg + str(ino): cmpn(sp, e.rec.st_ino), "inum"))
     for u in IDS + [2, 65533, 54320]:
@@ -190,6 +191,11 @@ def make_tests(rng, sb, info, ents_by_mode, quick):
     for f in ["s/hl/h3_0", "s/hl/h3_2", "s/hl/h1_0", "s/types/f1", "s/types/d1", "s/types/fifo", "s/deep/in/g1", "s/perm/p0644", "s/hl/h6_5"]:
         fst = os.lstat(os.path.join(sb, f))
         tests.append(Test(["-samefile", f], lambda e, m, fst=fst: (e.rec.st_dev, e.rec.st_ino) == (fst.st_dev, fst.st_ino), "samefile"))
+    # ... and with references that are dangling symbolic links (target missing: ENOENT; target path through a regular file: ENOTDIR):
+    # no follow mode can resolve them, so the reference is the link itself under -P, -H and -L alike
+    for f in ["s/types/l_dangling", "s/types/l_dangling2", "s/deep/in/ldang"]:
+        fst = os.lstat(os.path.join(sb, f))
+        tests.append(Test(["-samefile", f], lambda e, m, fst=fst: (e.rec.st_dev, e.rec.st_ino) == (fst.st_dev, fst.st_ino), "samefile-dangling-reference"))
     # -lname: the link itself must be the entry under the follow mode
     for pat in ("*", "f1", "l_*", "*1", "no*", "../*", "/*", "missing", "[fgh]?", "H3_1"):
         for cf in (False, True):
@@ -255,6 +261,14 @@ def worker(job):
     sb = common.mkscratch("C13w%d" % k)
     try:
         roots, info = build_sandbox(rng, sb, 64 if quick else 4096)
+        # a mount point below a starting point (its status record is that of the mounted file system's root)
+        import subprocess
+        os.mkdir(os.path.join(sb, "s", "mnt"))
+        if subprocess.run(["mount", "-t", "tmpfs", "-o", "size=64k", "none", os.path.join(sb, "s", "mnt")], capture_output=True).returncode == 0:
+            st.inc("sandboxes_with_a_mount_point")
+            open(os.path.join(sb, "s", "mnt", "inside"), "w").close()
+        else:
+            st.inc("mount_not_permitted")
         ents_by_mode = {}
         for mode in "PHL":
             ents, w = collect_entries(sb, roots, mode)
